@@ -58,6 +58,12 @@ func runC17(c *Ctx) {
 		if !uses {
 			continue
 		}
+		if fn.Synthetic != "" && fn.Name() == "init" && fn.Parent() == nil {
+			// the package initializer evaluating the variable's own initial value: it completes before any
+			// function of the package can be called (Go spec, package initialization), so no lock is needed
+			r.Check("R17.1", FuncName(fn), regName+" is given its initial value by the package initializer, before any access", fn.Pos(), true, "")
+			continue
+		}
 		if funcPkgPath(fn) != reg.G.Pkg.Pkg.Path() {
 			r.Check("R17.1", FuncName(fn), "access to "+regName+" from another package", fn.Pos(), false, "registry touched outside its package")
 		}
@@ -105,7 +111,7 @@ func runC17(c *Ctx) {
 		}
 	}
 	r.Floor("R17.1", "guarded accesses", nacc, 5)
-	r.Floor("R17.1", "functions touching the registry", users, 4)
+	r.Floor("R17.1", "functions touching the registry", users, 3)
 
 	c17Listing(c, reg)
 	c17Builtins(c)
